@@ -39,10 +39,31 @@ def const(k):
     return lin(k)
 
 
+def _is_slice(x):
+    return isinstance(x, tuple) and len(x) == 3 and x[0] == 'idx' and isinstance(x[2], tuple) and len(x[2]) == 3 and x[2][0] == 'range' \
+        and is_lin(x[2][1]) and (x[2][2] == ('inf',) or is_lin(x[2][2]))
+
+
+def _slice_norm(r):
+    """a sub-slice v[lo..hi] is not a value of its own: its length is hi - lo (the slicing itself checks lo <= hi <= len(v)),
+    its i-th element is v[lo + i]"""
+    if isinstance(r, tuple) and len(r) == 2 and r[0] == 'len' and _is_slice(r[1]):
+        _, v, (_, lo, hi) = r[1]
+        return sub(hi, lo) if hi != ('inf',) else sub(root(('len', v)), lo)
+    if isinstance(r, tuple) and len(r) == 3 and r[0] == 'idx' and _is_slice(r[1]) and is_lin(r[2]):
+        _, v, (_, lo, hi) = r[1]
+        return root(('idx', v, add(lo, r[2])))
+    return None
+
+
 def root(r):
     """Wrap an arbitrary term as a numeric value."""
     if is_lin(r):
         return r
+    if isinstance(r, tuple) and r and r[0] in ('len', 'idx'):
+        n = _slice_norm(r)
+        if n is not None:
+            return n
     return lin(0, {r: 1})
 
 
